@@ -105,6 +105,7 @@ package pogreb
 //@   ensures key: forall j int :: 0 <= j && j < len(key) ==> data[6+j] == key[j]
 //@   ensures value: forall j int :: 0 <= j && j < len(value) ==> data[6+len(key)+j] == value[j]
 //@   ensures crc: le32(contents(data), off(data)+len(data)-4) == crc(contents(data), off(data), len(data)-4)
+//@   at call PutUint32@2: assert checksum-of-prefix: len(data) == 10 + len(key) + len(value) && checksum == crc(contents(data), off(data), len(data)-4)
 //@   flag lossless
 
 // ---- file.go --------------------------------------------------------------------------------
